@@ -135,9 +135,21 @@ type Opts struct {
 	SchemaRd io.Reader
 }
 
+// SafeSprint formats a recovered panic value. The value can come from the system under test and
+// be booby-trapped: a javascript exception whose text is produced by running script code that
+// throws again. That must not take the harness down (it is the escaped panic that is reported).
+func SafeSprint(r interface{}) (s string) {
+	defer func() {
+		if recover() != nil {
+			s = fmt.Sprintf("panic value of type %T whose description panics as well", r)
+		}
+	}()
+	return fmt.Sprint(r)
+}
+
 func recoverTo(dst *string, stack *string) {
 	if r := recover(); r != nil {
-		*dst = fmt.Sprint(r)
+		*dst = SafeSprint(r)
 		if stack != nil {
 			*stack = string(debug.Stack())
 		}
@@ -182,7 +194,7 @@ func ReadOnce(tr omniparser.Transform) (e Entry) {
 		defer func() {
 			if r := recover(); r != nil {
 				e.Class = ClsPanic
-				e.Err = fmt.Sprint(r)
+				e.Err = SafeSprint(r)
 				e.Stack = string(debug.Stack())
 			}
 		}()
